@@ -29,6 +29,8 @@ type nullTransport struct {
 	dialer   func(addr string) (net.Conn, error)
 	failTo   string // writes to this address fail with a local error
 	failOp   bool   // ... with a udp write *net.OpError instead (an error that blames the remote side)
+	keepRefs bool   // also keep the very slices handed in (an in-process transport such as the package's MockTransport delivers them as they are)
+	refs     [][]byte
 }
 
 func newNullTransport() *nullTransport {
@@ -47,6 +49,9 @@ func (t *nullTransport) WriteTo(b []byte, addr string) (time.Time, error) {
 	t.mu.Lock()
 	t.sent = append(t.sent, append([]byte(nil), b...))
 	t.sentTo = append(t.sentTo, addr)
+	if t.keepRefs {
+		t.refs = append(t.refs, b)
+	}
 	t.mu.Unlock()
 	return time.Now(), nil
 }
@@ -419,6 +424,7 @@ type mop struct {
 	portless   bool // ... with Port = 0 on the wire when the claimed port is the configured one
 	entries    []mentry
 	timer      int
+	premeta    int // > 0: the application changes its metadata (delegate NodeMeta) just before this op, without calling UpdateNode
 }
 
 type mentry struct {
@@ -445,6 +451,9 @@ func (mn *mnode) apply(o mop) (tok string, panicked bool) {
 		}
 	}()
 	p := mn.pool
+	if o.premeta > 0 {
+		mn.rec.meta = mdPool[o.premeta-1]
+	}
 	switch o.kind {
 	case 'A':
 		mn.rec.veto = o.veto
@@ -600,9 +609,17 @@ func randomOp(r *rng, c mcfg, selfBias int, ntimers *int) mop {
 			vsn: []int{0, 0, 0, 0, 1, 2, 3, 4, 5, 6}[r.intn(10)], boot: false, veto: c.aliveDel && r.chance(1, 6),
 			viaPkt: r.chance(1, 4), portless: r.chance(1, 2)}
 	case k < 50:
-		return mop{kind: 'S', node: name, inc: genInc(r, true), from: from}
+		pm := 0
+		if name == "S" && r.chance(1, 3) {
+			pm = 1 + r.intn(len(mdPool))
+		}
+		return mop{kind: 'S', node: name, inc: genInc(r, true), from: from, premeta: pm}
 	case k < 66:
-		return mop{kind: 'D', node: name, inc: genInc(r, true), from: from}
+		pm := 0
+		if name == "S" && r.chance(1, 3) {
+			pm = 1 + r.intn(len(mdPool))
+		}
+		return mop{kind: 'D', node: name, inc: genInc(r, true), from: from, premeta: pm}
 	case k < 78:
 		n := r.intn(4)
 		var es []mentry
